@@ -1,8 +1,11 @@
 package zzverif
 
 import (
+	"bufio"
 	"encoding/binary"
 	"fmt"
+	"net"
+	"net/http"
 	"net/url"
 	"os"
 	"path/filepath"
@@ -1336,7 +1339,7 @@ func (w *qWorld) opRestart(op Op) {
 		rc.Probe("quiet_exit")
 	}
 	switch op.A {
-	case 0, 2:
+	case 0, 2, 4:
 		w.settleIfBurst()
 	case 3:
 		// publishes in progress while the shutdown is requested
@@ -1349,6 +1352,43 @@ func (w *qWorld) opRestart(op Op) {
 		rc.Probe("exit_inside_burst")
 	default:
 		rc.Probe("exit_inside_burst")
+	}
+	// a publisher that keeps one HTTP connection open: a request of its own is answered before the shutdown
+	// is requested (to a topic that does not exist yet, if there is one: its registration keeps the lookup
+	// loop busy), the next one is sent while the daemon is still shutting down
+	var keep net.Conn
+	var keepRd *bufio.Reader
+	lateTopic := ""
+	if op.A == 4 {
+		if w.cfg.DeadLookupd == 1 && !w.mainStart.IsZero() {
+			// to the lookup loop's next heartbeat (every 15 s from the daemon's start): with an nsqlookupd that
+			// never answers, the loop is then busy for a second, and so is the shutdown that waits for it
+			hb := 15 * time.Second
+			k := time.Since(w.mainStart)/hb + 1
+			w.exec(Op{Uid: op.Uid*16 + 13, Kind: "adv", A: int64(time.Until(w.mainStart.Add(k*hb)) / time.Millisecond)})
+			if rc.Failed() || w.n == nil {
+				return
+			}
+			w.beginStep()
+		}
+		// the topic of the late publish must not exist (a topic that is there is closed by then and refuses)
+		lateTopic = w.freshTopic(op.B)
+		if t := w.topics[lateTopic]; t != nil && (t.Exists || t.ExistUnknown) {
+			if f := w.opAdmin(Op{Uid: op.Uid*16 + 12, Kind: "admin", S: "delete_topic", A: w.topicIdx(lateTopic)}); f != nil {
+				f()
+			}
+			w.settle()
+			w.afterSettle()
+			w.beginStep()
+		}
+		if c, err := rc.Net.DialFrom(nil, w.httpAddr); err == nil {
+			keep, keepRd = c, bufio.NewReader(c)
+			if !w.keepAlivePing(keep, keepRd) {
+				keep.Close()
+				keep = nil
+			}
+		}
+		w.inBurst = true
 	}
 	rc.Logf("---- graceful exit requested (pending=%d)", len(w.pending))
 	n := w.n
@@ -1405,6 +1445,17 @@ func (w *qWorld) opRestart(op Op) {
 		if !co.Dead {
 			co.cl.Close()
 		}
+	}
+	if keep != nil {
+		synctest.Wait()
+		select {
+		case <-exitDone:
+		default:
+			// still shutting down (waiting for a subsystem): the listener is closed, this connection is not
+			rc.Probe("publish_on_persistent_connection_during_exit")
+			w.keepAlivePub(keep, keepRd, lateTopic, op.Uid*16+15)
+		}
+		keep.Close()
 	}
 	<-exitDone
 	w.n = nil
@@ -1467,6 +1518,69 @@ func (w *qWorld) opRestart(op Op) {
 		}
 	}
 	w.checkRegistry("C05")
+}
+
+// freshTopic: a configured topic that does not exist yet (the i-th of them), else the i-th configured topic.
+func (w *qWorld) freshTopic(i int64) string {
+	var fresh []string
+	for _, name := range w.cfg.Topics {
+		if t := w.topics[name]; t == nil || (!t.Exists && !t.ExistUnknown) {
+			fresh = append(fresh, name)
+		}
+	}
+	if len(fresh) == 0 {
+		return w.topicName(i)
+	}
+	return fresh[int(uint64(i)%uint64(len(fresh)))]
+}
+
+// keepAlivePing: GET /ping over the persistent connection (so that it is an established, idle keep-alive connection).
+func (w *qWorld) keepAlivePing(c net.Conn, rd *bufio.Reader) bool {
+	c.SetDeadline(time.Now().Add(30 * time.Second))
+	if _, err := c.Write([]byte("GET /ping HTTP/1.1\r\nHost: nsqd\r\n\r\n")); err != nil {
+		return false
+	}
+	resp, err := http.ReadResponse(rd, nil)
+	if err != nil {
+		return false
+	}
+	var buf [64]byte
+	for {
+		if _, err := resp.Body.Read(buf[:]); err != nil {
+			break
+		}
+	}
+	resp.Body.Close()
+	return resp.StatusCode == 200
+}
+
+// keepAlivePub publishes one message with POST /pub over the given persistent connection and waits for the answer.
+func (w *qWorld) keepAlivePub(c net.Conn, rd *bufio.Reader, topic string, uid int) bool {
+	r := NewPRNG(w.rc.Seed*31 + uint64(uid)*977 + 5)
+	body := w.makeBody(r, 0, false)
+	p := w.recordPub(body, topic, "http", -1, 0, 0, 0)
+	req := fmt.Sprintf("POST /pub?topic=%s HTTP/1.1\r\nHost: nsqd\r\nContent-Length: %d\r\n\r\n", url.QueryEscape(topic), len(body))
+	c.SetDeadline(time.Now().Add(30 * time.Second))
+	if _, err := c.Write(append([]byte(req), body...)); err != nil {
+		w.ackPubs([]*pubRec{p}, false, true)
+		return false
+	}
+	resp, err := http.ReadResponse(rd, nil)
+	if err != nil {
+		w.rc.Logf("persistent connection: %v", err)
+		w.ackPubs([]*pubRec{p}, false, true)
+		return false
+	}
+	var buf [512]byte
+	for {
+		if _, err := resp.Body.Read(buf[:]); err != nil {
+			break
+		}
+	}
+	resp.Body.Close()
+	w.rc.Logf("persistent connection: /pub?topic=%s -> %d", topic, resp.StatusCode)
+	w.ackPubs([]*pubRec{p}, resp.StatusCode == 200, false)
+	return true
 }
 
 // checkRegistry compares the set of topics/channels and paused flags in /stats with the model.
